@@ -277,7 +277,7 @@ func (e *Engine) cmdCheck(prop, tier, evid, known, replayDir string, replay bool
 	bySolver := map[string]int{}
 	solverSec := 0.0
 	var samples []map[string]interface{}
-	var undecided, knownSeen []string
+	undecided, knownSeen := []string{}, []string{}
 	for _, ob := range all {
 		if ob.Kind == "canary" {
 			switch ob.Status {
@@ -334,6 +334,21 @@ func (e *Engine) cmdCheck(prop, tier, evid, known, replayDir string, replay bool
 			knownSeen = append(knownSeen, f.Obligation)
 		}
 	}
+	if os.Getenv("GOVC_LEARN") != "" {
+		// remember which obligations need the case-split strategy (speeds up later runs; never affects soundness)
+		changed := false
+		for _, ob := range all {
+			if ob.Strategy == "split" && e.hints[baseName(ob.Name)] != "split" {
+				e.hints[baseName(ob.Name)] = "split"
+				changed = true
+			}
+		}
+		if changed {
+			os.MkdirAll("/verif/baseline", 0o755)
+			b, _ := json.MarshalIndent(e.hints, "", " ")
+			os.WriteFile("/verif/baseline/strategies.json", b, 0o644)
+		}
+	}
 	// obligation-count guard
 	minOb := e.baselineMin(prop)
 	if nOb < minOb {
@@ -343,6 +358,7 @@ func (e *Engine) cmdCheck(prop, tier, evid, known, replayDir string, replay bool
 		ob := all[0]
 		samples = append(samples, map[string]interface{}{"obligation": ob.Name, "status": ob.Status, "solver": ob.Solver, "source": ob.Src})
 	}
+	relied := map[string]string{}
 	trusted := []string{
 		"golang.org/x/tools go/packages+go/ssa (source -> SSA translation)",
 		"govc encoder (this tool)",
@@ -358,7 +374,29 @@ func (e *Engine) cmdCheck(prop, tier, evid, known, replayDir string, replay bool
 			trusted = append(trusted, "callee without contract (assumed not to panic, result arbitrary): "+x)
 		}
 	}
-	var assumptions []string
+	// contracts of callees that are relied on but verified elsewhere (or nowhere)
+	for _, fc := range fcs {
+		for name := range fc.calleeContracts {
+			if inSet[name] {
+				continue
+			}
+			c := e.cs.Funcs[name]
+			if c == nil {
+				if fn := e.funcs[name]; fn != nil {
+					c = e.contractFor(fn)
+				}
+			}
+			where := "NOT verified by any check (assumed)"
+			if c != nil && len(c.Tags) > 0 {
+				where = "verified under " + strings.Join(c.Tags, ",")
+			}
+			relied[name] = where
+		}
+	}
+	for _, x := range sortedKeysS(relied) {
+		trusted = append(trusted, "callee contract relied on: "+x+" — "+relied[x])
+	}
+	assumptions := []string{}
 	assumptions = append(assumptions, sortedKeys(e.assumptions)...)
 	assumptions = append(assumptions, sortedKeys(e.warnings)...)
 	for _, u := range sortedKeys(unsupported) {
@@ -381,7 +419,7 @@ func (e *Engine) cmdCheck(prop, tier, evid, known, replayDir string, replay bool
 			"solver_seconds":           round3(solverSec),
 			"undecided":                undecided,
 			"known_findings_seen":      knownSeen,
-			"tool_errors":              e.toolErrors,
+			"tool_errors":              nonNil(e.toolErrors),
 			"explanation":              "contract-based deductive verification: VCs generated from go/ssa of /repo's working tree, one SMT query per obligation",
 		}}
 	if evid != "" {
@@ -429,4 +467,20 @@ func baseName(n string) string {
 		return n[:i]
 	}
 	return n
+}
+
+func sortedKeysS(m map[string]string) []string {
+	var out []string
+	for k := range m {
+		out = append(out, k)
+	}
+	sort.Strings(out)
+	return out
+}
+
+func nonNil(xs []string) []string {
+	if xs == nil {
+		return []string{}
+	}
+	return xs
 }
